@@ -13,7 +13,22 @@ def main():
     mod = importlib.import_module("props." + a.pid.lower())
     if a.replay:
         sys.exit(mod.replay(a.replay))
-    sys.exit(mod.check(a.tier, a.seed))
+    try:
+        rc = mod.check(a.tier, a.seed)
+    except Exception:
+        # the machinery itself failed (typically on an answer of the implementation it did not expect): the property is no longer
+        # shown to hold by this run; say so in the agreed form instead of dying with a traceback
+        import traceback, json, lib
+        tb = traceback.format_exc()
+        os.makedirs(lib.REPLAY_DIR, exist_ok=True)
+        path = os.path.join(lib.REPLAY_DIR, "%s_%s_internal.json" % (a.pid, a.tier))
+        json.dump({"property": a.pid, "what": "internal error of the check", "theorem_or_correspondence": "check machinery tools/props/%s.py" % a.pid.lower(),
+                   "traceback": tb, "seed": a.seed, "tier": a.tier, "failing_input_found": False}, open(path, "w"), indent=1)
+        print(tb)
+        print("DETAIL %s: internal error of the check machinery (see traceback in the replay file)" % a.pid)
+        print("VIOLATION property=%s replay=%s no-failing-input-found" % (a.pid, path))
+        rc = 1
+    sys.exit(rc)
 
 if __name__ == "__main__":
     main()
